@@ -2328,6 +2328,16 @@ def ext_call(it, dotted, args, kw):
             r = Vec(order)
             r.exact = True
             return r
+    if name in ("scipy.stats.rankdata", "stats.rankdata", "rankdata") and args and isinstance(args[0], Vec) and set(kw) <= {"method"} and len(args) <= 2:
+        lv = _lits(args[0].v) if args[0].v else []
+        meth = kw.get("method", args[1] if len(args) > 1 else "average")
+        if lv is None or meth not in ("average", "min", "max"):
+            raise Undecided(f"rankdata(method={meth!r}) of values that are not literal")
+        lo_ = [1 + sum(1 for y in lv if y < x) for x in lv]
+        hi_ = [sum(1 for y in lv if y <= x) for x in lv]
+        r = Vec([Fr(l + h, 2) if meth == "average" else (l if meth == "min" else h) for l, h in zip(lo_, hi_)])
+        r.exact = args[0].exact
+        return r
     if name == "np.digitize" and len(args) == 2 and set(kw) <= {"right"}:
         # for increasing bins: the number of bin edges <= x (right=False) or < x (right=True)
         edges = list(args[1].v) if isinstance(args[1], Vec) else list(args[1])
